@@ -678,7 +678,7 @@ func (ex *Exec) sliceExpr(st *State, x *ast.SliceExpr, k func(*State, Val)) {
 				ex.safety(st, "safe.slice", cond, "slice bounds out of range", x.Pos(), func(st *State) {
 					s := &Sort{Kind: KSlice, Name: "Slice", Elem: base.S.Elem, Go: rt}
 					t := fmt.Sprintf("(mkslice (s_arr %s) (+ (s_off %s) %s) (- %s %s) (- (s_cap %s) %s))", base.T, base.T, l, h, l, base.T, l)
-					k(st, Val{T: ex.w.define("slice", s, t), S: s, Go: rt})
+					k(st, Val{T: ex.w.defineOpaque("slice", s, t), S: s, Go: rt})
 				})
 			})
 		})
